@@ -957,6 +957,38 @@ func runC19(w *World, r *Report) {
 		}
 	}
 
+	// ---- a handler that declined a timing gets nothing for it: every handler list On hands to the dispatch goes through the TimingChecker test
+	r.Rule("C19.declined-handlers-get-no-copy", "internal/callbacks.On builds the handler list element by element under the TimingChecker test: no bulk append of a manager's handler list (run-scoped or global) — a handler that said no to a stream timing is handed no copy of the stream (its stub method would never close it)", 1)
+	{
+		on := w.Fn("internal/callbacks", "On")
+		fH := w.Field("internal/callbacks", "manager", "handlers")
+		fG := w.Field("internal/callbacks", "manager", "globalHandlers")
+		n, bad := 0, 0
+		var at token.Pos
+		instrs(on, func(in ssa.Instruction) {
+			c, ok := in.(*ssa.Call)
+			if !ok || !isBuiltin(c, "append") || len(c.Call.Args) < 2 {
+				return
+			}
+			n++
+			v := c.Call.Args[1]
+			if sl, ok := v.(*ssa.Slice); ok {
+				if _, isAlloc := sl.X.(*ssa.Alloc); isAlloc {
+					return // a one-element variadic list
+				}
+				v = sl.X
+			}
+			if isLoadOfField(v, fH) || isLoadOfField(v, fG) {
+				bad++
+				at = c.Pos()
+			}
+		})
+		if n == 0 {
+			undecidedf("C19.declined-handlers-get-no-copy: On appends nothing")
+		}
+		r.Check(bad == 0, "C19.declined-handlers-get-no-copy", "On: handlers are admitted one by one", on.Pos(), fmt.Sprintf("%d appends, none spreads a whole handler list", n), "a whole handler list is appended unfiltered at "+w.pos(at)+": handlers in it that declined this timing (TimingChecker.Needed == false) are dispatched to all the same — for the stream timings each gets a copy of the streamed input / output which its stub method never closes, so the source is never closed and the producer stays blocked once the caller closes early")
+	}
+
 	// ---- the belief behind the two exceptions above, decided: what handlerTemplate.Needed can say yes to, the dispatchers handle
 	r.Rule("C19.template-cases-agree", "utils/callbacks.handlerTemplate: the components Needed forwards to a user handler of the generic kind (composeTemplates) are exactly the ones each of the five dispatchers (OnStart, OnEnd, OnError, OnStartWithStreamInput, OnEndWithStreamOutput) forwards: a component Needed answers for and a dispatcher drops into `default` gets a stream copy made for it that nobody closes", 5)
 	{
